@@ -77,7 +77,7 @@ def scores_native(vc):
                and bool(np.allclose(gl, glf, rtol=1e-4, atol=1e-5 * max(1.0, float(np.abs(glf).max())))))
 
 
-@bounded("C11", "selection_native", native_runs=6)
+@bounded("C11", "selection_native", native_runs=10)
 def selection_native(vc):
     """automatic hyper-parameter choice: inside the advertised bounds; multi-start BFGS at least as good as the centre"""
     from inference.gp import GpRegressor, SquaredExponential, ConstantMean, LinearMean
@@ -86,10 +86,20 @@ def selection_native(vc):
     np.random.seed(seed % (2 ** 31))
     n = int(rng.integers(5, 12))
     x = np.sort(rng.uniform(-3, 3, size=n))
-    y = np.sin(x) + 0.1 * rng.normal(size=n)
+    data = vc.choice("data", ["signal", "pure_noise", "constant_plus_noise"])
+    err = 0.1
+    if data == "signal":
+        y = np.sin(x) + 0.1 * rng.normal(size=n)
+    elif data == "pure_noise":
+        # scatter fully explained by the stated errors: the optimum sits ON a bound of the box (amplitude -> lower limit)
+        err = 1.0
+        y = rng.normal(size=n)
+    else:
+        err = 0.5
+        y = 3.0 + 0.5 * rng.normal(size=n)
     opt = vc.choice("optimizer", ["bfgs", "diffev"])
     cv = vc.bool("cross_val")
-    gp = GpRegressor(x, y, y_err=np.full(n, 0.1), kernel=SquaredExponential, mean=[ConstantMean, LinearMean][seed % 2],
+    gp = GpRegressor(x, y, y_err=np.full(n, err), kernel=SquaredExponential, mean=[ConstantMean, LinearMean][seed % 2],
                      optimizer=opt, cross_val=cv)
     lo = np.array([b[0] for b in gp.hp_bounds])
     hi = np.array([b[1] for b in gp.hp_bounds])
